@@ -35,7 +35,7 @@ ASSUMPTIONS = [
     "the random draw of the optimiser's built-in self-check is isolated by ift.random.Context",
     "comparison tolerance 1e-11 relative to max(1, |values|) (expressions have <= 4 products of O(1..20) numbers)",
     "operators are defined on MultiDomains (the optimiser documents this requirement by a warning)",
-    "an optimise_operator call that runs longer than 30 s wall is reported as non-terminating",
+    "an optimise_operator call that consumes more than 20 s of CPU time is reported as non-terminating",
 ]
 
 SPACES = {
@@ -224,7 +224,7 @@ def top_kind(op):
     return "linear" if isinstance(op, ift.LinearOperator) else type(op).__name__
 
 
-OPT_TIME_LIMIT = 30.   # seconds of wall time for one optimise_operator call (normally milliseconds)
+OPT_TIME_LIMIT = 20.   # seconds of CPU time (robust against machine load) for one optimise_operator call (normally ms)
 
 
 class _Timeout(Exception):
@@ -236,13 +236,13 @@ def time_limit(seconds):
     """The optimiser iterates `while cond:` loops to a fixed point; a hang is reported, not waited for."""
     def handler(signum, frame):
         raise _Timeout()
-    old = signal.signal(signal.SIGALRM, handler)
-    signal.setitimer(signal.ITIMER_REAL, seconds)
+    old = signal.signal(signal.SIGVTALRM, handler)
+    signal.setitimer(signal.ITIMER_VIRTUAL, seconds)
     try:
         yield
     finally:
-        signal.setitimer(signal.ITIMER_REAL, 0)
-        signal.signal(signal.SIGALRM, old)
+        signal.setitimer(signal.ITIMER_VIRTUAL, 0)
+        signal.signal(signal.SIGVTALRM, old)
 
 
 def run(case):
@@ -267,7 +267,7 @@ def run(case):
             with ift.random.Context(31), time_limit(OPT_TIME_LIMIT):
                 opt = ift.optimise_operator(op)
         except _Timeout as exc:
-            return bad("optimise_operator did not terminate within %g s   [%s]" % (OPT_TIME_LIMIT, case["e"]),
+            return bad("optimise_operator did not terminate within %g s of CPU time   [%s]" % (OPT_TIME_LIMIT, case["e"]),
                        finding_key="does-not-terminate|optimise_operator",
                        detail=dict(features=feat, interrupted_at=_site(exc)))
         except AssertionError as exc:
